@@ -1,9 +1,14 @@
 import Pyc.Driver.Value
 import Pyc.Driver.Canonical
 import Pyc.Driver.Output
+import Pyc.Driver.Builder
 import Pyc.Driver.Addr
 import Pyc.Driver.Backends
 import Pyc.Driver.Bip32
+import Pyc.Driver.CoinSel
+import Pyc.Driver.Plutus
+import Pyc.Driver.Cip8
+import Pyc.Driver.Collateral
 open Lean Pyc.Driver
 
 /-- dispatch on the prefix of `op` -/
@@ -12,8 +17,13 @@ def dispatch (op : String) (j : Json) : R Json :=
   else if op.startsWith "addr." || op.startsWith "ptr." || op.startsWith "bech32." then handleAddr op j
   else if op.startsWith "enc." then handleEnc op j
   else if op.startsWith "out." || op.startsWith "fee." then handleOutput op j
+  else if op.startsWith "builder." then handleBuilder op j
   else if op.startsWith "backend." then handleBackend op j
   else if op.startsWith "bip32." then handleBip32 op j
+  else if op == "select" then handleSelect op j
+  else if op.startsWith "plutus." then handlePlutus op j
+  else if op.startsWith "cip8." then handleCip8 op j
+  else if op == "collateral" || op.startsWith "collateral." then handleCollateral op j
   else throw s!"unknown op {op}"
 
 def handleLine (line : String) : String :=
